@@ -382,8 +382,78 @@ def configs(tier):
   return out
 
 
+# ---- sequential histories: open X, host closes X, open Y, with a device WRTE for X still in flight ------------------------
+def reopen_case(when, n_before):
+  """when: the stale WRTE(X) is on the wire 'before' the OKAY that opens Y, or 'after' it; n_before: streams opened (and
+  kept) before X.  Returns the observation dict."""
+  am, ap, ue, libusb1 = mods()
+
+  def fn(sched):
+    dev = Device(ue, libusb1)
+    conn = ap.AdbConnection(am.AdbTransportAdapter(dev), MAXDATA, 'device:ser:banner')
+    keep = [conn.open_stream('keep%d' % i, timeout_ms=100) for i in range(n_before)]
+    x = conn.open_stream('svcX', timeout_ms=100)
+    xl, xr = x._transport.local_id, x._transport.remote_id  # pylint: disable=protected-access
+    x.close(timeout_ms=50)
+    if when == 'before':
+      dev.enqueue('WRTE', xr, xl, 'STALE-X')
+    else:
+      dev.on_open = lambda local, remote: dev.enqueue('WRTE', xr, xl, 'STALE-X')
+    res = {'x': (xl, xr)}
+    try:
+      y = conn.open_stream('svcY', timeout_ms=100)
+    except Exception as e:  # pylint: disable=broad-except
+      res['open'] = 'error:%s:%s' % (type(e).__name__, str(e)[:80])
+      return res
+    dev.on_open = None
+    if y is None:
+      res['open'] = 'refused'
+      return res
+    yl, yr = y._transport.local_id, y._transport.remote_id  # pylint: disable=protected-access
+    res['open'] = 'ok'
+    res['y'] = (yl, yr)
+    dev.enqueue('WRTE', yr, yl, 'fresh')
+    try:
+      res['read'] = y.read(timeout_ms=100)
+    except Exception as e:  # pylint: disable=broad-except
+      res['read'] = 'error:%s:%s' % (type(e).__name__, str(e)[:80])
+    res['rx'] = list(dev.rx)
+    res['keep_open'] = [not k.is_closed() for k in keep]
+    return res
+
+  sched, value = explore.run_under_scheduler(fn, [], focus_targets=focus(), focus_files=('openhtf/plugs/usb/adb_protocol.py',),
+                                             max_steps=60000)
+  return value if isinstance(value, dict) else {'open': 'harness:%r / %r' % (value, sched.failure)}
+
+
+def run_reopen(rep):
+  n = 0
+  shapes = set()
+  for when in ('before', 'after'):
+    for n_before in (0, 1, 2):
+      v = reopen_case(when, n_before)
+      n += 1
+      shapes.add((when, n_before, v.get('open'), v.get('read')))
+      rp = {'reopen': [when, n_before]}
+      tag = 'reopen:%s:%d' % (when, n_before)
+      if v.get('open') != 'ok':
+        rep.merge_violations([(tag + ':open', 'open X, close X, open Y with a WRTE for X %s Y\'s OKAY: opening Y gave %r'
+                               % (when, v.get('open')), rp)])
+        continue
+      if v.get('read') != 'fresh':
+        rep.merge_violations([(tag + ':bytes', 'stream Y (ids %r) opened after X (ids %r) was closed: its reader obtained %r, the '
+                               'device wrote %r to Y (and \'STALE-X\' to the closed X)' % (v['y'], v['x'], v.get('read'), 'fresh'), rp)])
+      bad_ok = [m for m in v.get('rx', []) if m[0] == 'OKAY' and (m[1], m[2]) == tuple(v['x']) and v['x'] != v['y']]
+      if bad_ok:
+        rep.merge_violations([(tag + ':ack', 'the host acknowledged a WRTE for the closed stream X: %r' % (bad_ok,), rp)])
+  rep.add_part('sequential open / close / open with a late WRTE', states=n, transitions=n, traces_validated_against_impl=n,
+               deviation_bound=0, distinct_outcomes=len(shapes), exhaustive=True, samples=[{'cases': sorted(map(repr, shapes))[:3]}])
+
+
 def run(tier):
   rep = common.Report(PID, tier, 'model_checking')
+  run_reopen(rep)
+  explore.set_plan(common.thorough_budget(tier, 900.0), len(configs(tier)))
   for scripts, merge, writer, bound in configs(tier):
     cfg = (scripts, merge, writer)
     r = explore.explore('C14:%r' % (cfg,), lambda ch, cfg=cfg: execute(cfg, ch), check(cfg), bound,
@@ -405,6 +475,13 @@ def run(tier):
 
 def replay(art):
   r = art['replay']
+  if 'reopen' in r:
+    v = reopen_case(*r['reopen'])
+    print(v)
+    bad = v.get('open') != 'ok' or v.get('read') != 'fresh'
+    if bad:
+      print('VIOLATED reopen', r['reopen'])
+    return 1 if bad else 0
   scripts, merge, writer = r['cfg']
   cfg = (scripts, [tuple(x) for x in merge], writer)
   ex = execute(cfg, r['choices'])
